@@ -136,3 +136,33 @@ Proof.
   pose proof (ear_gains_side d sinL cosL sinR cosR s lp lq (mirror lp lq pos) Hu He Ho Hd Hs Hm) as H.
   rewrite (ear_gains_mirror _ _ _ _ _ _ _ _ _ Hu He) in H. cbn [fst snd] in H. exact H.
 Qed.
+
+(** F22 over the reals: with ear distance 213, half-angle sine/cosine -7/25, 24/25 (an outward ear
+    angle below 45 degrees), listener at the origin with identity orientation, the emitter
+    (-73, 0, 48) lies left of the centre, inside the head and behind it; the vectors to the ears
+    have lengths 148 and 290 and the left gain is the SMALLER one. *)
+Lemma side_preference_inside_head_R_witness :
+  exists (d sL cL sR cR : R) (lp : vec) (lq : qtn) (pos : vec),
+    unitq lq /\ ears_ok sL cL sR cR /\ ears_outward sL cL /\ 0 <= d /\
+    - d < dot (v_sub pos lp) (xaxis lq) < 0 /\
+    fst (ear_gains_R d sL cL sR cR 1 lp lq pos) < snd (ear_gains_R d sL cL sR cR 1 lp lq pos).
+Proof.
+  exists 213, (-7/25), (24/25), (7/25), (24/25), (V3 0 0 0), (Qt 0 0 0 1), (V3 (-73) 0 48).
+  assert (Hu : unitq (Qt 0 0 0 1)) by (unfold unitq, qnorm2; cbn; ring).
+  assert (He : ears_ok (-7/25) (24/25) (7/25) (24/25)) by (constructor; lra).
+  assert (Hx : dot (v_sub (V3 (-73) 0 48) (V3 0 0 0)) (xaxis (Qt 0 0 0 1)) = -73).
+  { unfold dot, xaxis, q_rot, v_sub, v_add, v_scale, v_cross, v_dot; cbn; ring. }
+  assert (Hz : dot (v_sub (V3 (-73) 0 48) (V3 0 0 0)) (zaxis (Qt 0 0 0 1)) = 48).
+  { unfold dot, zaxis, q_rot, v_sub, v_add, v_scale, v_cross, v_dot; cbn; ring. }
+  assert (Hr : norm2 (v_sub (V3 (-73) 0 48) (V3 0 0 0)) = 7633).
+  { unfold norm2, dot, v_sub; cbn; ring. }
+  split; [exact Hu|]. split; [exact He|].
+  split; [unfold ears_outward, earC, earS; split; lra|].
+  split; [lra|]. split; [rewrite Hx; lra|].
+  rewrite ear_gains_unfold. cbn [fst snd]. rewrite (ear_volumes_frame _ _ _ _ _ _ _ _ Hu He).
+  rewrite Hx, Hz, Hr. cbn [fst snd]. unfold volL, volR.
+  replace (7633 + 2 * 213 * -73 + 213 * 213) with (148 * 148) by ring.
+  replace (7633 - 2 * 213 * -73 + 213 * 213) with (290 * 290) by ring.
+  rewrite !nz_core_pos by lra. rewrite !sqrt_square by lra.
+  unfold earC, earS. lra.
+Qed.
